@@ -54,6 +54,23 @@ CLAIMED = {
              "contents and their order beyond the raw option list), byte-for-byte idempotence, variable-length tails after "
              "the first option loop of a constructor.",
     ),
+    "C05": dict(
+        category="other",
+        design_ref="DESIGN.md section 3 / C05",
+        technique="static analysis: ordering / must-precede rules on the clang CFG of the six checksum producers and all "
+                  "serialisers, operand-pairing rules on the pseudo-header calls, loop-shape rule for the end-around-carry "
+                  "fold, finite evaluation of the IPv6 chain guard over the index",
+        text="NARROW claim (protocol, not arithmetic). Decides: (R1) for IP, TCP, UDP, ICMP, ICMPv6 and the ICMP extension "
+             "structure: checksum field zero when written, sum taken after the last covered byte over [buffer, end), every "
+             "32-bit accumulator folded by a carry LOOP before narrowing (incl. Utils::sum_range), result complemented, kept "
+             "and patched back, pseudo-header built from the parent's addresses, size() and this class's protocol number; "
+             "(R2) no header field is assigned after its header went through the cursor unless patched back (35 "
+             "serialisers); (R3) tags are looked up for the immediate inner layer and the IPv6 extension chain links header "
+             "i-1 to header i for every i >= 1; (R4) Ethernet/802.1Q padding is zero-filled after the payload.",
+        note="NOT decided: the one's-complement arithmetic and CRC32 themselves, the values of length / offset expressions "
+             "(tot_len, doff, payload_length ...), the UDP zero-checksum substitution value, agreement with libpcap filters - "
+             "value-level. Tag tables are decided under C03.R2.",
+    ),
     "C06": dict(
         category="other",
         design_ref="DESIGN.md section 3 / C06",
